@@ -40,6 +40,8 @@ func execLocal(line string) (impl, oracle string) {
 		return opDpipe(w[1])
 	case "rid":
 		return opRid(w[1])
+	case "disp":
+		return opDisp(w[1])
 	case "mdisp":
 		return opMdisp(w[1])
 	case "listen":
